@@ -30,6 +30,7 @@ type FS struct {
 	runaway bool
 	failing map[string]error
 	onClose map[string]func() // one-shot hooks: run when an opened file of that name is closed
+	openErr map[string]error  // FailRead: Open fails, Stat keeps working
 }
 
 // New creates an empty FS.
@@ -67,6 +68,21 @@ func (f *FS) FailOpen(name string, err error) {
 		delete(f.failing, name)
 	} else {
 		f.failing[name] = err
+	}
+	f.mu.Unlock()
+}
+
+// FailRead makes Open of name fail with err while Stat keeps answering (too many open files,
+// an I/O error, a permission problem on read); nil clears it.
+func (f *FS) FailRead(name string, err error) {
+	f.mu.Lock()
+	if f.openErr == nil {
+		f.openErr = map[string]error{}
+	}
+	if err == nil {
+		delete(f.openErr, name)
+	} else {
+		f.openErr[name] = err
 	}
 	f.mu.Unlock()
 }
@@ -223,6 +239,9 @@ func (f *FS) Open(name string) (fs.File, error) {
 		return nil, &fs.PathError{Op: "open", Path: name, Err: fs.ErrPermission}
 	}
 	if err, ok := f.failing[name]; ok {
+		return nil, &fs.PathError{Op: "open", Path: name, Err: err}
+	}
+	if err, ok := f.openErr[name]; ok {
 		return nil, &fs.PathError{Op: "open", Path: name, Err: err}
 	}
 	if fl, ok := f.files[name]; ok {
